@@ -1,6 +1,6 @@
 """C15 configuration for bin/check."""
 CFG = dict(
-    also=["C07:units"],   # "harmonising the units of several profiles preserves each profile's physical totals": C07's ScaleProfiles/ScaleN model on its convertible-units streams
+    also=["C07:units", "C06:gen:tagrange-boundary,e2e-tag-nonmultiple"],   # numeric tag filters are a consumer of the exact ratio (C06's model of parseTagFilterRange);   # "harmonising the units of several profiles preserves each profile's physical totals": C07's ScaleProfiles/ScaleN model on its convertible-units streams
     level="proof", pfile="P_C15.v", rmod="R_C15", judge="judge_C15",
     level_text="Theorems (all unit tables satisfying the decidable table_ok, all int64 values, all spellings): exact-ratio conversion, "
                "identity, negation, family confinement, unknown units untouched, auto picks the largest unit >= 1, label read-back "
